@@ -24,14 +24,17 @@ RULE = ('call histories (1..5 calls of expect / expect_exact / expect_list, mark
         'call, between calls - they coalesce in the kernel), units released one by one whenever existing_data/new_data '
         'reported "no match yet", several units at once, EOF alone or together with the last data. Outcomes (index | '
         'exception class, before, after, match span and groups, match_index, pending) are compared call by call up to and '
-        'including the first EOF; awaited calls that time out must do so within T + 2 s. Dedicated timeout=0 sub-check. '
+        'including the first EOF; awaited calls that time out must do so within T + 2 s. Dedicated timeout=0 sub-check. Awaited-only histories are also judged against the naive model of C03 '
+        '(chunks known by construction), including awaits abandoned by the caller after which the read transport stays '
+        'active and text arrives while no expect is waiting. '
         'non-trivial = history with >=2 calls in which some call consumed >=2 units or units were pre-written; distinct by case')
 ASSUMPTIONS = ['the release points are wrappers on Expecter.existing_data / new_data (class level, dispatch on the spawn object)',
                'TIMEOUTs are produced deterministically (no unit left for the call, T = 0.1 s); a twin difference must '
                'reproduce in two further serial runs',
                '_async_pre_await.py is not importable on this interpreter and is not exercised']
 REQUIRED = ['histories', 'byte_cut_histories', 'pty_histories', 'calls_compared', 'awaited_calls', 'blocking_calls', 'mixed_objects', 'eof_calls', 'timeout_calls',
-            'prewritten_units', 'timeout0_subchecks']
+            'prewritten_units', 'timeout0_subchecks', 'async_model_calls', 'async_model_abandoned_awaits',
+            'async_model_idle_chunks']
 
 T = 0.1
 TWINS = {}
@@ -456,6 +459,10 @@ def plan(tier, seed):
     n = 900 if tier == 'quick' else 20000
     specs = [{'n': b - a, 'shard': i, 'seed': seed} for i, (a, b) in enumerate(split_range(n, 15))]
     specs.append({'t0': True})
+    n, k = (240, 6) if tier == 'quick' else (6000, 15)
+    for i, (a, b) in enumerate(split_range(n, k)):
+        # awaited calls against the naive model, incl. awaits abandoned by the caller (checks/_async_model.py)
+        specs.append({'am': True, 'n': b - a, 'shard': 500 + i, 'seed': seed})
     return specs
 
 
@@ -470,9 +477,18 @@ def guarded(case, acc):
         acc.inconc('watchdog: %s' % e)
 
 
+def is_model_case(case):
+    return bool(case.get('calls')) and 'idle' in case['calls'][0]
+
+
 def run_shard(spec, acc):
+    from . import _async_model as AM
     if 'replay' in spec:
+        if is_model_case(spec['replay']):
+            return AM.run(spec, acc, 'awaited')
         return guarded(spec['replay'], acc)
+    if spec.get('am'):
+        return AM.run(spec, acc, 'awaited')
     if spec.get('t0'):
         for enc in (None, 'utf-8'):
             for op in ('expect', 'expect_exact', 'expect_list'):
